@@ -123,6 +123,9 @@ func isCompare(op token.Token) bool {
 }
 
 func runC09(c *Check, w *World) {
+	if w.Cfg.Name == CfgNative.Name {
+		ruleJSExportsDirect(c, "JS", "validateHOTP", "validateTOTP")
+	}
 	runC09on(c, w)
 	if w.Cfg.Name == CfgNative.Name {
 		runControl(c, "S1", []string{"ControlEarlyExit|compare"}, func(sink *Check, cw *World) { runC09on(sink, cw) })
